@@ -544,8 +544,61 @@ def check_C20(ctx):
     return emitter_check(ctx, "C20")
 
 
+# ------------------------------------------------------------------------------------------------
+# C14 / C15 (AnchorStore)
+# ------------------------------------------------------------------------------------------------
+def check_C14(ctx):
+    q = ctx.quick()
+    cases = ctx.path("cases.ndjson")
+    run_mc(ctx, "MC_AnchorStore", dict(MaxAllocs=3, MaxFields=4 if q else 5, ScopeSaves=True, MaxCalls=0),
+           ["InvSharing", "InvWeakFirstIsError", "EmitCase"], workers=8, timeout=3000, cases_out=cases, label="MC_AnchorStore_sharing")
+    ctx.exhaustive = True
+    recs = ctx.path("recs.ndjson")
+    st = run_vh(ctx, ["c14", "--cases", cases, "--out", recs, "--random", 500 if q else 20000, "--seed", ctx.seed, "--chain", 3 if q else 4])
+    ctx.evaluations += st["records"]
+    ctx.distinct_nontrivial += st["nontrivial"]
+    ctx.samples += st["samples"]
+    mism = run_tv(ctx, "TV_AnchorStore", recs, timeout=3000)
+    classify_mismatches(ctx, [(m[0], {"verdict": m[1]["verdict"], "rec": m[1]["rec"]}, m[2], m[3]) for m in mism], None, {},
+                        "pointer-equality classes after the round trip differ from AnchorStore!SameSharing")
+    return finish(ctx, "model_checking",
+                  "graphs: every list of <= 4/5 fields (strong / weak / dangling weak) over 3 allocations enumerated by TLC, each built from "
+                  "Rc wrappers in a sequence, a map and a struct and from Arc wrappers in a sequence, plus random graphs of <= 9 fields; "
+                  "recursive wrappers: every parent chain of length <= 3/4 with every choice of back edge (to any ancestor, itself, or "
+                  "none) through Option<RcRecursion>; compared by pointer-equality classes; non-trivial = graphs in which two fields share",
+                  ASSUME_COMMON + ["graphs with a weak field before its strong owner are outside the documented domain (the model shows "
+                                   "they cannot be read back) and are skipped"])
+
+
+def check_C15(ctx):
+    q = ctx.quick()
+    run_mc(ctx, "MC_AnchorStore", dict(MaxAllocs=1, MaxFields=0, ScopeSaves=True, MaxCalls=3 if q else 4), ["InvCleanAtBoundary"],
+           properties=["NestedTransparent"], workers=4, timeout=3000, label="MC_AnchorStore_histories")
+    cases = ctx.path("cases.ndjson")
+    run_mc(ctx, "MC_Histories", dict(MaxLen=3 if q else 4, NCalls=11), ["EmitCase"], workers=4, timeout=3000, cases_out=cases, label="MC_Histories")
+    ctx.exhaustive = True
+    recs = ctx.path("recs.ndjson")
+    st = run_vh(ctx, ["c15", "--cases", cases, "--out", recs, "--random", 300 if q else 20000, "--seed", ctx.seed])
+    ctx.evaluations += st["records"]
+    ctx.distinct_nontrivial += st["nontrivial"]
+    ctx.samples += st["samples"]
+    mism = run_tv(ctx, "TV_AnchorStore", recs, timeout=3000)
+    classify_mismatches(ctx, [(m[0], {"verdict": m[1]["verdict"], "rec": m[1]["rec"]}, m[2], m[3]) for m in mism], None, {},
+                        "a call's result differs from the same call on a fresh thread, or thread-local state leaked / a nested call was not transparent")
+    return finish(ctx, "model_checking",
+                  "histories: every sequence of <= 3/4 calls over 11 call kinds (ok with sharing, failure inside an anchored node, missing "
+                  "field, budget breach, panicking visitor, parse nested in a user Deserialize impl at top level and inside an anchored "
+                  "node, abandoned iterator, serialization with shared pointers, unknown alias, weak reference) enumerated by TLC and run "
+                  "on one thread, plus random histories of 4-15 calls; each call's fingerprint is compared with the same call on a fresh "
+                  "thread, the thread-local anchor state and fallback location are snapshotted (hooks) after every call and around every "
+                  "nested call; non-trivial = histories of at least two calls",
+                  ASSUME_COMMON + ["hooks: serde_saphyr::verif_hooks::{anchor_state, missing_field_fallback} (read-only, cfg serde_saphyr_verif)"])
+
+
 CHECKS = {
     "C02": check_C02,
+    "C14": check_C14,
+    "C15": check_C15,
     "C13": check_C13,
     "C20": check_C20,
     "C12": check_C12,
